@@ -55,6 +55,9 @@
 (*   oracle:RefusedCopyChangedDestination  convert-chunks --copy-info exits  *)
 (*                                  non-zero on a destination that already   *)
 (*                                  had an info, but changed its contents   *)
+(*   oracle:ConvertFailed           fault-free program, the design accepts   *)
+(*   oracle:AllInOneFailed          the command, the tool exits non-zero     *)
+(*   oracle:StatsFailed             (commands named by the harness)          *)
 (*   oracle:ConvertVoxelsDiffer     exit 0 and some scale of the            *)
 (*                                  destination /= Convert(source scale),   *)
 (*                                  for EVERY chunking the info declares    *)
@@ -474,7 +477,17 @@ Step ==
   /\ LET c == Ev[l].cmd
          r == Run(c, dirs, cfg)
          pv == [prov EXCEPT ![c.d] = ProvStep(@, c, Ev[l].exit)]
-         oc == OracleClause(l, pv)
+         \* C13 promises a converted destination for EVERY valid source and parameter pair: in a
+         \* fault-free program (flag set by the harness: no obstructed path, no damaged source)
+         \* whose model state is in step with the observations, a conversion the design accepts
+         \* must not end in an error
+         \* (likewise the all-in-one command for C19 - the separate steps succeed on the same
+         \* input - and scale-stats for C20; the harness names the commands in `mustops`)
+         ms == IF /\ "mustops" \in DOMAIN Cases[tid]
+                  /\ \E i \in 1..Len(Cases[tid].mustops) : Cases[tid].mustops[i] = c.op
+                  /\ drift = "none" /\ r.exit = 0 /\ Ev[l].exit # 0
+               THEN "oracle:" \o c.op \o "Failed" ELSE "ok"
+         oc == LET o == OracleClause(l, pv) IN IF o # "ok" THEN o ELSE ms
          dc == DesignClause(l, r)
      IN /\ bad' = oc
         /\ prov' = pv
